@@ -36,7 +36,7 @@ type Node struct {
 	Dead   bool // nothing is delivered to it any more
 }
 
-func (n *Node) Results() int { return len(n.ECKeys) + len(n.EDKeys) + len(n.Sigs) }
+func (n *Node) Results() int   { return len(n.ECKeys) + len(n.EDKeys) + len(n.Sigs) }
 func (n *Node) Finished() bool { return n.Results() > 0 }
 func (n *Node) Errored() bool  { return len(n.Errs) > 0 }
 
